@@ -212,6 +212,10 @@ func run1(sc *Scenario, path []string, convBin string) (res result) {
 			res.viol = append(res.viol, CheckViewComplete(w, w.Views[len(w.Views)-1])...)
 		}
 	}
+	if len(w.DoubleJobs) != 0 && len(w.Errors) == 0 {
+		res.viol = append(res.viol, V{"C09", "c09.two-jobs-of-one-kind", strings.Join(w.DoubleJobs, "; ")})
+		return
+	}
 	if len(w.Errors) != 0 {
 		res.hardErr = fmt.Errorf("harness: %v", w.Errors)
 		return
